@@ -271,7 +271,7 @@ def main():
       new_viols.append((cid, v))
   printed = set()
   for cid, v in new_viols:
-    if v["sig"] in printed or len(printed) >= 12:
+    if v["sig"] in printed or len(printed) >= 200:
       continue
     printed.add(v["sig"])
     os.makedirs(replay_dir, exist_ok=True)
